@@ -604,7 +604,11 @@ _INT_BITS = {"u8": 8, "u16": 16, "u32": 32, "u64": 64, "usize": 64}
 
 
 def fold_bin(t):
-    """Fold arithmetic on two scalar constants (unsigned 64-bit range assumed sufficient)."""
+    """Fold arithmetic on two scalar constants (unsigned 64-bit range assumed sufficient); the constant operand of a
+    commutative operation goes to the right (as lower.canonical_operands does on the statements - a variable that becomes a
+    constant in a restricted view is handled here)."""
+    if t[0] == "bin" and t[1].replace("WithOverflow", "") in ("Add", "Mul", "BitAnd", "BitOr", "BitXor") and t[2][0] == "c" and t[3][0] != "c":
+        t = (t[0], t[1], t[3], t[2]) + tuple(t[4:])
     if t[0] == "bin" and t[2][0] == "c" and t[3][0] == "c" and isinstance(t[2][1], int) and isinstance(t[3][1], int):
         a, b = t[2][1], t[3][1]
         op = t[1]
